@@ -34,6 +34,11 @@ for d in sorted(glob.glob(os.path.join(V, "seeded", "*"))):
         continue
     m = json.load(open(mf))
     runs = "; ".join("%s -> %s" % (k, "**detected**" if v.get("detected") else "not detected") for k, v in m.get("checks_run", {}).items())
+    fr = m.get("final_run")
+    if fr:
+        runs += ("; " if runs else "") + "re-run on the final tree (%s, %s) -> %s" % (fr.get("repo_head"), fr.get("tier"), "**detected**" if fr.get("detected") else "not detected")
+    if m.get("superseded"):
+        runs += " (superseded: " + m["superseded"][:160] + "...)"
     out.append("| %s | %s | %s |" % (os.path.basename(d), m.get("needs", "").replace("|", "\\|"), runs))
 text = "\n".join(out) + "\n"
 p = os.path.join(V, "DESIGN.md")
